@@ -367,7 +367,7 @@ def case_stream(ctx, rng: random.Random, n_random, nmax, mmax, exhaustive_n=3, b
     for n in range(n_random):
         r = rng.random()
         if r < 0.5:
-            spec = graphs.rand_spec(rng, nmax=nmax, mmax=mmax, ecls=graphs.ECLS_X, vcls=graphs.VCLS_X)
+            spec = graphs.rand_spec(rng, nmax=nmax, mmax=mmax, ecls=graphs.ECLS_X, vcls=graphs.VCLS_XB)
         elif r < 0.8:
             spec = graphs.rand_spec(rng, nmax=nmax, mmax=mmax, ecls=graphs.ECLS_DU, vcls=graphs.VCLS_PLAIN)
         else:
